@@ -1025,7 +1025,108 @@ class Generated(Suite):
         return check_case(case)
 
 
-SUITES = [Matrix(), FaultEnum(), Generated()]
+class _Reset(Exception):
+    pass
+
+
+class AfterError(Suite):
+    """Precedence after an error: the responder fills body sources (text / data / media, optionally rendering the media
+    early through the public render_body()), then raises; the registered handler composes the real response from ONE
+    source (text, data, media, an iterable stream, or nothing).  The body sent must be exactly that source (nothing of
+    what the responder had prepared may survive), with a matching Content-Length for the non-streamed ones, on WSGI and ASGI."""
+
+    name = 'after_error'
+    exhaustive = True
+    budget = {'quick': 1, 'thorough': 1}
+
+    def cases(self, tier):
+        for stack in ('wsgi', 'asgi'):
+            for pre in itertools.product((False, True), repeat=3):
+                for render in (False, True):
+                    for final in ('none', 'text', 'data', 'media', 'stream'):
+                        for status in (200, 409):
+                            yield {'stack': stack, 'pre': list(pre), 'render': render, 'final': final, 'status': status}
+
+    def run(self, case):
+        asyn = case['stack'] == 'asgi'
+        pre_text, pre_data, pre_media = case['pre']
+        final = case['final']
+
+        def prepare(resp):
+            if pre_text:
+                resp.text = 'prepared text'
+            if pre_data:
+                resp.data = b'prepared data'
+            if pre_media:
+                resp.media = {'prepared': 'media'}
+
+        def compose(resp):
+            resp.status = case['status']
+            if final == 'text':
+                resp.text = 'final text'
+            elif final == 'data':
+                resp.data = b'final data'
+            elif final == 'media':
+                resp.media = {'final': 1}
+
+        if asyn:
+            class R(object):
+                async def on_get(self, req, resp):
+                    prepare(resp)
+                    if case['render']:
+                        await resp.render_body()
+                    raise _Reset()
+
+            async def handler(req, resp, ex, params):
+                compose(resp)
+                if final == 'stream':
+                    async def gen():
+                        yield b'final '
+                        yield b'stream'
+                    resp.stream = gen()
+            app = falcon.asgi.App()
+        else:
+            class R(object):
+                def on_get(self, req, resp):
+                    prepare(resp)
+                    if case['render']:
+                        resp.render_body()
+                    raise _Reset()
+
+            def handler(req, resp, ex, params):
+                compose(resp)
+                if final == 'stream':
+                    resp.stream = iter([b'final ', b'stream'])
+            app = falcon.App()
+        app.add_route('/', R())
+        app.add_error_handler(_Reset, handler)
+        if asyn:
+            res = A.call(app, A.build_scope('GET', '/'))
+        else:
+            res = W.call(app, W.build_environ('GET', '/'))
+        if res.error is not None:
+            raise res.error
+        want = {'none': b'', 'text': b'final text', 'data': b'final data', 'stream': b'final stream'}.get(final)
+        ctx = 'case=%r: status %r headers %r body %r' % (case, res.code, res.headers, res.body)
+        if res.code != case['status']:
+            raise Violation('after_error_status', ctx)
+        if final == 'media':
+            try:
+                ok = json.loads(res.body.decode()) == {'final': 1}
+            except ValueError:
+                ok = False
+            if not ok:
+                raise Violation('after_error_body', 'the handler set resp.media = {"final": 1}; ' + ctx)
+        elif res.body != want:
+            raise Violation('after_error_body', 'the handler composed %r from %s; something the responder had prepared survived the '
+                            'reset or shadows it; %s' % (want, final, ctx))
+        if final != 'stream':
+            if res.header_list('content-length') != [str(len(res.body))]:
+                raise Violation('after_error_content_length', ctx)
+        return Info(any(case['pre']), [case['stack'], 'final:' + final] + (['rendered_before_raise'] if case['render'] else []))
+
+
+SUITES = [Matrix(), FaultEnum(), Generated(), AfterError()]
 
 
 # ----------------------------------------------------------------- known findings (narrow predicates)
